@@ -461,3 +461,137 @@ pub fn dump_loaded(l: &Loaded) -> String {
 pub fn keypath_string(kp: &KeyPath) -> String {
     kp.to_string()
 }
+
+// ------------------------------------------------------------------------------------------
+// dumps used by C10 (and by the `dump-*` sub-commands run in fresh processes)
+
+/// in-process code generation for the project at `dir`: token stream text, or the error text
+pub fn codegen_text(dir: &Path) -> Result<String, String> {
+    std::env::set_var("CARGO_MANIFEST_DIR", dir);
+    let r = std::panic::catch_unwind(crate::load_locales::load_locales);
+    match r {
+        Ok(Ok(ts)) => Ok(ts.to_string()),
+        Ok(Err(e)) => Err(format!("error: {e}")),
+        Err(p) => Err(format!("PANIC: {} @ {}", panic_message(p), last_panic_loc())),
+    }
+}
+
+/// everything observable, byte for byte (same file format only)
+pub fn full_dump(dir: &Path) -> String {
+    let mut s = String::new();
+    match load(dir) {
+        LoadOutcome::Ok(l) => s.push_str(&dump_loaded(&l)),
+        LoadOutcome::Err(e) => s.push_str(&format!("LOAD ERROR: {e}\n")),
+        LoadOutcome::Panic(m) => s.push_str(&format!("LOAD PANIC: {m}\n")),
+    }
+    s.push_str("---- generated code ----\n");
+    match codegen_text(dir) {
+        Ok(t) => s.push_str(&t),
+        Err(e) => s.push_str(&e),
+    }
+    s.push('\n');
+    s
+}
+
+fn fixed_counts_int(lo: i128, hi: i128) -> Vec<Num> {
+    let mut v = vec![];
+    for c in [0i128, 1, 2, 3, 5, 7, 10, 11, 21, 100, -1, -5, 1000000, lo, hi] {
+        if c >= lo && c <= hi && !v.contains(&c) {
+            v.push(c);
+        }
+    }
+    v.into_iter().map(Num::Int).collect()
+}
+
+/// format-neutral view: key tree, members per key, diagnostics, evaluated text under a fixed
+/// argument policy. Numeric literal *types* are deliberately left out.
+pub fn neutral_dump(dir: &Path) -> String {
+    use leptos_i18n_parser::parse_locales::locale::RangeOrPlural;
+    let l = match load(dir) {
+        LoadOutcome::Ok(l) => l,
+        LoadOutcome::Err(_) => return "LOAD ERROR\n".to_string(),
+        LoadOutcome::Panic(m) => return format!("LOAD PANIC: {m}\n"),
+    };
+    let mut s = String::new();
+    let nss: Vec<Option<String>> = match &l.bk {
+        BuildersKeys::Locales { .. } => vec![None],
+        BuildersKeys::NameSpaces { namespaces, .. } => namespaces.iter().map(|n| Some(n.key.name.to_string())).collect(),
+    };
+    for ns in &nss {
+        let nsr = ns.as_deref();
+        let Some((locales, _)) = l.top(nsr) else { continue };
+        let names: Vec<String> = locales.iter().map(|x| x.name.name.to_string()).collect();
+        s.push_str(&format!("namespace {:?} locales {:?}\n", ns, names));
+        for path in l.leaf_paths(nsr) {
+            let iol = l.interpol_at(nsr, &path);
+            let mut vars: Vec<(String, Option<String>)> = vec![];
+            let mut comps: Vec<String> = vec![];
+            if let Some(InterpolOrLit::Interpol(k)) = iol {
+                for (key, info) in k.iter_vars() {
+                    let kind = info.range_count.map(|rc| match rc {
+                        RangeOrPlural::Plural => "plural".to_string(),
+                        RangeOrPlural::Range(t) => format!("{}", t),
+                    });
+                    vars.push((strip(&key.name, "var_").to_string(), kind));
+                }
+                comps = k.iter_comps().map(|c| strip(&c.name, "comp_").to_string()).collect();
+            }
+            s.push_str(&format!(" key {} vars {:?} comps {:?}\n", path.join("."), vars, comps));
+            // assignments: one per probe of the first count variable (or a single one)
+            let count_var = vars.iter().find(|(_, k)| k.is_some()).cloned();
+            let probes: Vec<Option<Num>> = match &count_var {
+                None => vec![None],
+                Some((_, Some(k))) => {
+                    let ints = |lo: i128, hi: i128| fixed_counts_int(lo, hi).into_iter().map(Some).collect::<Vec<_>>();
+                    match k.as_str() {
+                        "plural" => ints(0, 2_000_000),
+                        "i8" => ints(i8::MIN as i128, i8::MAX as i128),
+                        "i16" => ints(i16::MIN as i128, i16::MAX as i128),
+                        "i32" => ints(i32::MIN as i128, i32::MAX as i128),
+                        "i64" => ints(i64::MIN as i128, i64::MAX as i128),
+                        "u8" => ints(0, u8::MAX as i128),
+                        "u16" => ints(0, u16::MAX as i128),
+                        "u32" => ints(0, u32::MAX as i128),
+                        "u64" => ints(0, u64::MAX as i128),
+                        _ => [0.0, 0.5, 1.0, 1.5, 2.0, -1.0, 10.25, 1e9, -3.5].iter().map(|f| Some(Num::Float(*f))).collect(),
+                    }
+                }
+                _ => vec![None],
+            };
+            for loc in &names {
+                let mut outs: Vec<String> = vec![];
+                for pr in &probes {
+                    let mut args = RtArgs::default();
+                    for (v, kind) in &vars {
+                        match (kind, pr) {
+                            (Some(_), Some(n)) => {
+                                args.counts.insert(v.clone(), *n);
+                                args.vars.insert(
+                                    v.clone(),
+                                    match n {
+                                        Num::Int(i) => i.to_string(),
+                                        Num::Float(f) => f.to_string(),
+                                    },
+                                );
+                            }
+                            _ => {
+                                args.vars.insert(v.clone(), format!("\u{ab}{}\u{bb}", v));
+                            }
+                        }
+                    }
+                    outs.push(match l.eval(nsr, loc, &path, &args) {
+                        Ok(t) => tree_to_string(&t),
+                        Err(e) => format!("<{:?}>", e).split(['(', '{']).next().unwrap_or("").to_string(),
+                    });
+                }
+                outs.dedup();
+                s.push_str(&format!("  {} => {:?}\n", loc, outs));
+            }
+        }
+    }
+    s.push_str("warnings:\n");
+    for w in &l.warnings {
+        s.push_str(&format!("  {}\n", w));
+    }
+    s
+}
